@@ -22,6 +22,11 @@ PROPS = {
 
 
 def code_text(c):
+    if c >= 1000:
+        c -= 1000
+        if c >= 100:
+            return 'analyze_for_*: %s reports a line on which no construct matching its pattern begins' % DETS[c - 100]
+        return 'analyze_for_*: %s does not report the line of a canonical occurrence of its pattern' % DETS[c]
     if c >= 100:
         return '%s reports a location at which nothing matching its pattern begins' % DETS[c - 100]
     return '%s does not report a canonical occurrence of its pattern' % DETS[c]
@@ -32,7 +37,10 @@ def make_extra(prop):
 
     def extra(p, r):
         j = p['j']
-        e = ['%s p%d %s' % (P['spec'], j, det_common.impl_dets_expr(r)), '%s p%d' % (P['stats'], j)]
+        e = ['%s p%d %s' % (P['spec'], j, det_common.impl_dets_expr(r)), '%s p%d' % (P['stats'], j),
+             # the same specification at the level the user sees: the lines returned by analyze_for_* (dispatch by
+             # name, parse, detector, line lookup), called right after an unrelated file of the same length
+             'spec_lines_both p%d s%d %s' % (j, j, det_common.impl_lines_expr(r))]
         if P['hyp']:
             e.append('%s p%d' % (P['hyp'], j))
         return e
@@ -41,18 +49,20 @@ def make_extra(prop):
 
 def eval_prop(ctx, prop, progs, name):
     P = PROPS[prop]
-    ctx.extra_imports = 'Patterns Patterns2 SpecCases'
+    ctx.extra_imports = 'Patterns Patterns2 SpecCases AnchorCases'
     ps, out = det_common.evaluate(ctx, progs, name, extra=make_extra(prop))
     res = []
     for p, r, dm, lm, ex in out:
         spec_fail = ex[0]
         stats = ex[1]
-        hyp = ex[2] if P['hyp'] else True
+        hyp = ex[3] if P['hyp'] else True
         if spec_fail is None:        # option: hypothesis of the property does not apply (C09: no single full version)
             hyp = False
             spec_fail = []
-        m = [k for k in dm if k in P['dets']]
-        s = spec_fail if hyp else []
+        # line level: model (analyze_lines) and specification, restricted to the detectors of this property
+        line_spec = [1000 + c for c in ex[2] if (c % 100) in P['dets']]
+        m = [k for k in dm if k in P['dets']] + [1000 + k for k in lm if k in P['dets'] and k not in dm]
+        s = (spec_fail + line_spec) if hyp else []
         res.append({'p': p, 'r': r, 'M': m, 'S': s, 'stats': stats, 'hyp': hyp})
     return ps, res
 
@@ -143,12 +153,15 @@ def run(rep, ctx, prop, extra_progs=None, rule_extra=''):
             what = '; '.join(code_text(c) for c in y['S'])
             rep.violation(what, {'kind': 'S', 'input': small, 'original_gen': x['p']['gen'], 'spec_failures': y['S'],
                                  'impl': {DETS[k]: y['r']['det'][DETS[k]] for k in P['dets']},
+                                 'impl_lines': {DETS[k]: y['r']['lines'][DETS[k]] for k in P['dets']},
                                  'theorem_file': P['theorem_file'], 'n_failing_programs': len(bad_S)})
         else:
-            what = 'model and implementation disagree on ' + ', '.join(DETS[k] for k in y['M'])
+            what = 'model and implementation disagree on ' + ', '.join(
+                (DETS[k - 1000] + ' (line set of analyze_for_*)') if k >= 1000 else DETS[k] for k in y['M'])
             rep.violation(what, {'kind': 'M', 'input': small, 'original_gen': x['p']['gen'],
-                                 'correspondence': [{'model_function': 'Detectors.' + DETS[k], 'rust_function': DETS[k]} for k in y['M']],
-                                 'impl': {DETS[k]: y['r']['det'][DETS[k]] for k in y['M']},
+                                 'correspondence': [{'model_function': ('DetCases.analyze_lines ' if k >= 1000 else 'Detectors.') + DETS[k % 1000],
+                                                     'rust_function': ('analyze_for_* -> ' if k >= 1000 else '') + DETS[k % 1000]} for k in y['M']],
+                                 'impl': {DETS[k % 1000]: (y['r']['lines'] if k >= 1000 else y['r']['det'])[DETS[k % 1000]] for k in y['M']},
                                  'n_disagreeing_programs': len(bad_M)}, no_input=True)
         reported += 1
     common.finish_proof_status(rep, ctx, found)
@@ -162,7 +175,7 @@ def replay(prop, obj):
     _, rr = eval_prop(ctx, prop, [{'gen': 'replay', 'src': obj['input']}], 'replay')
     y = rr[0]
     print('input:\n' + y['p']['src'])
-    print('implementation:', {DETS[k]: y['r']['det'][DETS[k]] for k in PROPS[prop]['dets']})
-    print('model/implementation disagreements:', [DETS[k] for k in y['M']])
+    print('implementation:', {DETS[k]: (y['r']['det'][DETS[k]], y['r']['lines'][DETS[k]]) for k in PROPS[prop]['dets']})
+    print('model/implementation disagreements:', [DETS[k % 1000] + (' (lines)' if k >= 1000 else '') for k in y['M']])
     print('specification failures:', [code_text(c) for c in y['S']], '(hypotheses hold: %s)' % y['hyp'])
     return 1 if (y['M'] or y['S']) else 0
